@@ -36,7 +36,10 @@ def gen(rng, with_pump):
                 lines.append(("%s:" % g, ns)); ns = g
         elif r < 0.27 and fresh:
             l = rng.choice(fresh); lines.append(("%s:" % l, ns)); defined.add((ns, l))
-        elif r < 0.285 and have:
+        elif r < 0.30 and ns is not None and ns.startswith("Glob") and (ns, "@undef") not in defined:
+            # removing the current global label's own symbol does not end the scope it opened
+            lines.append(("@undef %s" % ns, ns)); defined.add((ns, "@undef"))
+        elif r < 0.315 and have:
             # defining a local name twice under one global: rejected, whichever spelling is used
             l = rng.choice(have); lines.append((rng.choice(["%s:", "@defn %s, 3", "@defl %s, 4"]) % l, ns))
         elif r < 0.40:
